@@ -178,6 +178,10 @@ def insertion(ctx, p, k, v, keep_key, absent, present, full_none=None):
         ctx.req('OUT', p.len_is(1) and z.entails_eq(idx, ms.len0), nm + ':append',
                 'on the not-found path len must grow by exactly one and the new entry sits at the old len', p)
         ctx.req('OUT', absent(p, idx), nm + ':append-result', 'wrong result for an absent key', p)
+        if not (ctx.body.unsafe and p.E.contract):
+            ctx.req('CAP', z.entails_lt(ms.len0, ms.cap) and not p.st.assumed, nm + ':append',
+                    'a new entry may be accepted (normal return) only when the container held fewer than N entries; '
+                    'otherwise the call must not return normally', p, props=(ctx.props - {'C12'}) | {'C03'})
         return
     if p.hits:
         ctx.classes['hit'] += 1
@@ -1424,6 +1428,129 @@ def h_make_algebra(kind):
     return h
 
 
+# ------------------------------------------------------------------------------ serde (C20, feature serde)
+def _is_err_from(val):
+    """Err(From::from(e)) built by the `?` operator: -> tag of e, else None"""
+    if val[0] == 'adt' and val[1] == RESULT and val[2] == 1 and val[3] and val[3][0][0] == 'opq' \
+            and isinstance(val[3][0][1], tuple) and val[3][0][1][:1] == ('from',):
+        return val[3][0][1][1]
+    return None
+
+
+def h_serialize(begin, entry):
+    def h(ctx, p):
+        nm = 'serialize'
+        z, ms = p.z, p.ms
+        begins = [e for e in p.user if e[1].endswith('::' + begin)]
+        ok = len(begins) == 1 and len(begins[0][2]) >= 2 and begins[0][2][1][:1] == ('some',) \
+            and begins[0][2][1][1][:1] == ('int',) and ms is not None and z.entails_eq(begins[0][2][1][1][1], ms.len0)
+        ctx.req('FLOW', ok, nm, 'the serializer must be told Some(len()) exactly once, before any entry', p)
+        ctx.req('OUT', p.untouched() and p.len_is(0), nm, 'serializing must not change the container', p)
+        e = _is_err_from(p.val)
+        if e is not None:
+            ctx.classes['error'] += 1
+            props = [x for x in p.events if x[0] == 'errprop']
+            ctx.req('ERRPROP', bool(props) and props[-1][1] == e, nm + ':error',
+                    'an error may only be the propagated error of the serializer call that failed', p)
+            return
+        ctx.classes['done'] += 1
+        t = vtag(p.val)
+        ok = isinstance(t, tuple) and len(t) >= 2 and t[0] == 'u' and t[1].endswith('::end')
+        ctx.req('FLOW', ok, nm + ':done', 'the result must be that of the end() call of the serializer state', p)
+        sl = [x for x in p.events if x[0] == 'slice' and x[1] == p.mid]
+        ok = bool(sl) and z.entails_eq(sl[0][2], 0) and z.entails_eq(sl[0][3], ms.len0)
+        ctx.req('ROOTSLICE', ok, nm + ':done', 'the entries emitted must be those of the live prefix [0, len)', p)
+        # no serializer error may be swallowed on the way to end()
+        errs = [x for x in p.events if x[0] == 'variant' and x[2] == 1 and isinstance(x[1], tuple) and x[1][:1] == ('u',)
+                and 'serde::ser' in str(x[1][1])]
+        ctx.req('ERRPROP', not errs, nm + ':done', 'a serializer error must not be swallowed', p)
+    return h
+
+
+def serialize_iteration(entry, nargs):
+    def mk(props):
+        def hook(E, body, key, st, seg):
+            calls = [e for e in seg if e[0] == 'user' and e[1].endswith('::' + entry)]
+            if not calls:
+                return
+            it = Iteration(E, st, seg)
+            nm = body.name
+            E.iter_classes['entry'] += 1
+            it_req(E, props, 'ONCE', len(calls) == 1, nm + ':iteration', 'exactly one entry must be emitted per stored element', it)
+            a = calls[0][2]
+            z = st.zone
+            ok = len(a) == 1 + nargs and isinstance(a[1], tuple) and a[1][:1] == ('slot',) and tuple(a[1][3]) == (0,)
+            if ok and nargs == 2:
+                ok = isinstance(a[2], tuple) and a[2][:1] == ('slot',) and a[2][1] == a[1][1] and tuple(a[2][3]) == (1,) \
+                    and z.entails_eq(a[1][2], a[2][2])
+            it_req(E, props, 'FLOW', ok, nm + ':iteration',
+                   'the entry emitted must consist of the key%s of one stored element' % (' and the value' if nargs == 2 else ''), it)
+            bad = [e for e in seg if e[0] == 'variant' and e[2] == 1 and isinstance(e[1], tuple) and e[1][:1] == ('u',)
+                   and e[1][1].endswith('::' + entry)]
+            it_req(E, props, 'ERRPROP', not bad, nm + ':iteration', 'the loop must not continue after an element failed to serialize', it)
+        return hook
+    return mk
+
+
+def h_visit(pull):
+    """Visitor::visit_map / visit_seq: new(); loop(next -> insert) until the source reports the end"""
+    def h(ctx, p):
+        nm = ctx.body.name
+        z = p.z
+        e = _is_err_from(p.val)
+        if e is not None:
+            ctx.classes['error'] += 1
+            props = [x for x in p.events if x[0] == 'errprop']
+            ctx.req('ERRPROP', bool(props) and props[-1][1] == e, nm + ':error',
+                    'an error may only be the propagated error of the access call that failed', p)
+            return
+        if p.val[0] == 'adt' and p.val[1] == RESULT and p.val[2] == 1:
+            # an error made up by the visitor itself: only sound when the input provably exceeds the capacity
+            ctx.classes['refused'] += 1
+            capt = Term('$N')
+            ints = [t for t in _terms(p.val) if isinstance(t, Term)]
+            exceeds = any(z.entails_lt(capt, t) for t in ints)
+            ctx.req('OUT', exceeds, nm + ':refused',
+                    'the visitor refuses input by itself; this is only acceptable when the announced length '
+                    'provably exceeds N, which is not established on this path', p)
+            return
+        ctx.classes['done'] += 1
+        mid = map_in(p.E, p.val)
+        ms = p.st.maps.get(mid) if mid else None
+        ok = p.val[0] == 'adt' and p.val[1] == RESULT and p.val[2] == 0 and ms is not None and ms.len0 is None
+        ctx.req('FLOW', ok, nm + ':done', 'the result must be Ok(container built from new() inside the call)', p)
+        pulls = [i for i, x in enumerate(p.events) if x[0] == 'user' and x[1].endswith('::' + pull)]
+        ended = False
+        if pulls:
+            after = p.events[pulls[-1] + 1:]
+            vs = [x for x in after if x[0] == 'variant']
+            # Ok(..) then None
+            ended = len(vs) >= 2 and vs[0][2] == 0 and vs[1][2] == 0
+        ctx.req('ONCE', ended, nm + ':done',
+                'Ok may be returned only after the source itself reported the end of the input (so every entry '
+                'that was serialized is read back)', p)
+    return h
+
+
+def _pulled_access(name):
+    return lambda e: e[0] == 'user' and e[1].endswith('::' + name)
+
+
+def _item_of_access(e):
+    return ('u', e[1], e[2])
+
+
+def h_deserialize(entry):
+    def h(ctx, p):
+        nm = 'deserialize'
+        ctx.classes['done'] += 1
+        calls = [e for e in p.user if e[1].endswith('::' + entry)]
+        t = vtag(p.val)
+        ok = len(calls) == 1 and isinstance(t, tuple) and len(t) >= 2 and t[0] == 'u' and t[1].endswith('::' + entry)
+        ctx.req('FLOW', ok, nm, 'must hand the visitor to the deserializer exactly once and return its result', p)
+    return h
+
+
 def _pulled_next(e):
     return (e[0] == 'next' and e[-1] == 'Some') or (e[0] == 'user' and e[1].endswith('::Iterator::next')) \
         or (e[0] == 'opaque' and e[1].endswith('::Iterator>::next'))
@@ -1463,6 +1590,10 @@ ITER_HOOKS = {
     (DIFF, 'Iterator', 'fold'): ({'C08'}, filter_iteration('diff', True), {'folded', 'dropped'}),
     (DIFFREF, 'Iterator', 'fold'): ({'C08'}, filter_iteration('diff', True), {'folded', 'dropped'}),
     (INTER, 'Iterator', 'fold'): ({'C08'}, filter_iteration('inter', True), {'folded', 'dropped'}),
+    (MAP, 'Serialize', 'serialize'): ({'C20'}, serialize_iteration('serialize_entry', 2), {'entry'}),
+    (SET, 'Serialize', 'serialize'): ({'C20'}, serialize_iteration('serialize_element', 1), {'entry'}),
+    ('serialization::Vi', 'Visitor', 'visit_map'): ({'C20'}, lambda pr: bulk_iteration(pr, _pulled_access('next_entry'), _item_of_access), {'item', 'hit', 'append'}),
+    ('set::serialization::Vi', 'Visitor', 'visit_seq'): ({'C20'}, lambda pr: bulk_iteration(pr, _pulled_access('next_element'), _item_of_access), {'item', 'hit', 'append'}),
     (SET, 'Extend', 'extend'): ({'C16', 'C07'}, lambda pr: bulk_iteration(pr, _pulled_cb, _item_of_cb), {'item', 'hit', 'append'}),
 }
 
@@ -1546,6 +1677,10 @@ def required_classes(key):
         return {'made'}
     if key[2] == 'clear':
         return {'cleared'}
+    if key[2] in ('serialize', 'visit_map', 'visit_seq') and key in HANDLERS:
+        return {'done', 'error'}
+    if key[2] == 'deserialize' and key in HANDLERS:
+        return {'done'}
     if key[2] in ('eq', 'is_subset', 'is_superset', 'is_disjoint') and key in HANDLERS:
         return {'true', 'false'} | ({'shortcut'} if key[2] in ('eq', 'is_subset', 'is_superset') else set())
     if key[2] == 'clone' and key[0] in (MAP, SET):
@@ -1628,6 +1763,12 @@ HANDLERS.update({
     (SET, None, 'intersection'): ({'C08'}, h_make_algebra('intersection')),
     (SET, None, 'union'): ({'C08'}, h_make_algebra('union')),
     (SET, None, 'symmetric_difference'): ({'C08'}, h_make_algebra('symmetric_difference')),
+    (MAP, 'Serialize', 'serialize'): ({'C20'}, h_serialize('serialize_map', 'serialize_entry')),
+    (SET, 'Serialize', 'serialize'): ({'C20'}, h_serialize('serialize_seq', 'serialize_element')),
+    ('serialization::Vi', 'Visitor', 'visit_map'): ({'C20'}, h_visit('next_entry')),
+    ('set::serialization::Vi', 'Visitor', 'visit_seq'): ({'C20'}, h_visit('next_element')),
+    (MAP, 'Deserialize', 'deserialize'): ({'C20'}, h_deserialize('deserialize_map')),
+    (SET, 'Deserialize', 'deserialize'): ({'C20'}, h_deserialize('deserialize_seq')),
     (MAP, None, 'clear'): ({'C01'}, h_clear),
     (SET, None, 'clear'): ({'C07'}, h_clear),
 })
